@@ -86,8 +86,19 @@ fn main() {
     run.assume("HNSW reachability of every live vector is statistical and is counted, not asserted; soundness (only live ids that carry a vector, one entry per such document) is asserted");
     run.assume("expected index content is derived from the model with the documented rules: Null skipped, arrays and map keys expanded, composite key = canonical CBOR of Some(field) concatenated");
     let t = run.tier;
-    run.parallel("histories", t.pick(6000, 400000), 0.95, |c, rng, st| case(c, rng, st, 25 + (c % 16) as usize));
+    if run.wants("crash") {
+        // "... and after recovery from every crash point of C01": the C01 crash machinery (every
+        // prefix of the recorded mutation log, nested crashes inside recovery, failed calls) with
+        // this property's audit as the judge of every recovered state
+        v_db::crash::set_prefix("C02/crash");
+        v_db::crash::set_deadline_in(run.time_left().mul_f64(0.35));
+        run.parallel("crash", t.pick(64, 800), 0.3, |c, rng, st| v_db::crash::case(c, rng, st, t));
+    }
+    if run.wants("histories") {
+        run.parallel("histories", t.pick(6000, 400000), 0.95, |c, rng, st| case(c, rng, st, 25 + (c % 16) as usize));
+    }
     run.floor("audits", 2000);
+    run.floor("recovered_states_audited", 500);
     run.floor("audits_after_rejected_op", 100);
     run.floor("audits_after_reopen", 50);
     run.floor("oracle_btree_eq", 10000);
